@@ -5,7 +5,7 @@
 From Coq Require Import List String Bool.
 Import ListNotations.
 From DV.gen Require Import Gen_classtab.
-From DV.proofs Require Import ClassFacts.
+From DV.proofs Require Import ClassFacts CF_C14.
 Open Scope string_scope.
 
 (* full strength: every exported transform persists every constructor argument.  One class is an
